@@ -1002,7 +1002,13 @@ impl StreamsState {
             }
         }
         if half == StreamHalf::Send {
-            self.send_streams -= 1;
+            // The sending half of a remotely initiated bidirectional stream is only counted once
+            // the application has accepted the stream
+            let counted = id.initiator() == self.side
+                || id.index() < self.next_reported_remote[Dir::Bi as usize];
+            if counted {
+                self.send_streams -= 1;
+            }
         }
     }
 
